@@ -7,7 +7,7 @@ per-document reset covers every accumulating field; all option components reach 
 source and every success path passes the finishing call, which invokes both report callbacks
 before returning the delayed breach."""
 from ..mir import norm, fieldpath, MissingAnchor
-from ..rules import render, compares, aggregates, must_pass, writes_in, resets_in, bool_switches, STRICT_REJECT_FORMS
+from ..rules import render, compares, aggregates, must_pass, writes_in, resets_in, bool_switches, last_seg, STRICT_REJECT_FORMS
 from .. import proto
 
 EXPLANATION = ("Static rules over the resolved MIR of /repo (per feature configuration): LIMIT (counter/limit/breach pairing "
@@ -392,6 +392,42 @@ def rule_replay(ctx, fx, config):
     ctx.check(bool(marks) and must_pass(ni, marks, rb, to_blocks=okret), "REPLAY", "C07:REPLAY:next_impl:dominates",
               "every replayed event passes observe_budget_for_replay before it is returned",
               "a replayed event can be returned without passing the budget", config, ctx.where(ni, marks[0] if marks else None))
+
+    # SLOT: a replayed alias is observed twice (the raw Alias event and the replayed node); only one of the two may advance
+    # the key/value position of the enclosing mapping.  Every path that schedules a replay (push onto self.inject) with a
+    # budget present passes the call that gives the alias's slot back; the paths that do not replay never call it.
+    refill = [b for b, t in ni.calls() if fx.callee(t) == "budget::BudgetEnforcer::alias_slot_refilled_by_replay"]
+    pushes = []
+    for b, t in ni.calls():
+        if last_seg(fx.callee_decl(t)) == "push" and t["args"]:
+            with ni.deep():
+                if render(ni.sym_operand(t["args"][0])).endswith("self.inject"):
+                    pushes.append(b)
+    ctx.check(len(pushes) >= 1, "REPLAY", "C07:REPLAY:slot:push-site", "replay scheduling site found (%d)" % len(pushes), "cannot find where next_impl schedules a replay (self.inject.push)", config, ctx.where(ni))
+    free = reach_avoiding(ni, [0], set(refill), budget_none_edges(ni))
+    leak = [b for b in pushes if b in free]
+    ctx.check(bool(refill) and not leak, "REPLAY", "C07:REPLAY:slot:alias-gives-slot-back",
+              "with a budget, a replay is scheduled only after the raw alias's key/value slot was given back to the replayed node",
+              "next_impl schedules an alias replay without giving the raw alias's slot back: the alias and the replayed node both advance the enclosing "
+              "mapping's key/value position, the next key is taken for a value and a following `<<` is not counted (max_merge_keys not enforced)", config, ctx.where(ni, (leak or pushes or [None])[0]))
+    # ... and the synthetic (non-replayed) results of the alias arm are not reachable from the call
+    for rb_ in refill:
+        after = ni.reachable([ni.blocks[rb_]["term"]["t"]], avoid=pushes) if ni.blocks[rb_]["term"].get("t") is not None else set()
+        rets = [b for b in okret if b in after and not any(ni.dominates(p_, b) for p_ in pushes)]
+        # after the call, control continues to the push; an Ok return reachable while avoiding the push would be a node that keeps the slot twice given back
+        ctx.check(not rets, "REPLAY", "C07:REPLAY:slot:only-when-replayed", "the slot is given back only on the path that replays",
+                  "the alias slot is given back on a path that returns without scheduling a replay", config, ctx.where(ni, rb_))
+    g = fx.fn("budget::BudgetEnforcer::alias_slot_refilled_by_replay")
+    ctx.saw(g)
+    tog = False
+    for b, i, s_ in g.stmts():
+        if s_["k"] == "assign" and s_["p"]["pr"]:
+            with g.deep():
+                dst = render(g.sym_place(s_["p"]))
+                v = g.sym_rvalue(s_["rv"])
+            if dst.endswith("expecting_key") and v[0] == "un" and v[1] == "Not" and render(v[2]) == dst:
+                tog = True
+    ctx.check(tog, "REPLAY", "C07:REPLAY:slot:toggle", "the slot give-back inverts expecting_key of the innermost mapping", "alias_slot_refilled_by_replay no longer inverts expecting_key", config, ctx.where(g))
 
 
 def rule_finish(ctx, fx, config):
